@@ -59,7 +59,11 @@ func (s BasicPrivateTokenRequestState) FinalizeToken(tokenResponseEnc []byte) (t
 		return tokens.Token{}, err
 	}
 
-	tokenData := append(s.tokenInput, outputs[0]...)
+	// Assemble the token in storage of its own: tokenInput has spare capacity, so appending to it would build the
+	// token inside the request state's buffer and hand the caller slices that alias it
+	tokenData := make([]byte, 0, len(s.tokenInput)+len(outputs[0]))
+	tokenData = append(tokenData, s.tokenInput...)
+	tokenData = append(tokenData, outputs[0]...)
 	token, err := UnmarshalPrivateToken(tokenData)
 	if err != nil {
 		return tokens.Token{}, err
